@@ -547,7 +547,7 @@ def hammer_validate(ml_exe, h, fuel=4):
                 order.append((pk, rk, rd))
                 n += 1
         lines.append("END")
-    rc, out, err = sh([ml_exe], input="\n".join(lines) + "\n", timeout=600)
+    rc, out, err = sh([ml_exe], input="\n".join(lines) + "\n", timeout=120)
     res = out.split("\n")[:-1]
     bad = []
     it = iter(order)
@@ -736,8 +736,8 @@ def run(ctx):
                                                          "overruns": idx + 3 >= 256}
 
     # (4d) multi-threaded hammer, validated against Atomic.v
-    n_ham = ctx.scale(20, 300)
-    ham_ops = ctx.scale(1500, 20000)
+    n_ham = ctx.scale(40, 600)
+    ham_ops = ctx.scale(400, 1500)
     total_blend = []
     for i in range(n_ham):
         threads = rng.choice([2, 3, 4, 8, 12, 16])
